@@ -224,6 +224,21 @@ func (s *scen) updateBlobber(prov string, writePrice currency.Coin, capacity int
 	return s.scCall(name+")", "c2", "update_blobber_settings", 0, nil, 0, static(in))
 }
 
+// dupValidator: `from` registers as a validator with the url of validator vi (already used).
+func (s *scen) dupValidator(from string, vi int, fee currency.Coin) chainsim.Action {
+	in := map[string]any{
+		"url":                 fmt.Sprintf("http://%s.example:10291", s.V[vi].Name),
+		"stake_pool_settings": map[string]any{"delegate_wallet": s.actor("c2").ID, "num_delegates": 2, "service_charge": 0.2},
+	}
+	return s.scCall(fmt.Sprintf("add_validator(%s,url-of-%s)", from, s.V[vi].Name), from, "add_validator", 0, nil, fee, static(in))
+}
+
+// updateBlobberURL: the delegate wallet moves the blobber to a new url and a write price its stake cannot cover.
+func (s *scen) updateBlobberURL(prov string, writePrice currency.Coin, fee currency.Coin) chainsim.Action {
+	in := map[string]any{"id": s.actor(prov).ID, "url": fmt.Sprintf("http://%s-new.example:9081", prov), "terms": map[string]any{"write_price": writePrice}}
+	return s.scCall(fmt.Sprintf("update_blobber_settings(%s,url,wp=%d)", prov, writePrice), "c2", "update_blobber_settings", 0, nil, fee, static(in))
+}
+
 // tick lets virtual time pass: a health check of a blobber (changes only its last_health_check).
 func (s *scen) tick(prov string, dt int64) chainsim.Action {
 	return s.scCall(fmt.Sprintf("tick(+%ds)", dt), prov, "blobber_health_check", dt, nil, 0, static(nil))
@@ -492,8 +507,9 @@ func (s *scen) readPoolUnlock(from string, fee currency.Coin) chainsim.Action {
 }
 
 // readRedeem: blobber bi redeems a read marker of `client` for allocation ref with an absolute
-// counter, signed by signer ("" = the client). claim = the client id/public key written into the
-// marker ("" = the client's own).
+// counter. signer "" = signed by the client; "name" = signed by that actor's key while the marker
+// still carries the client's public key; "key:name" = the marker names the client's id but carries
+// (and is signed with) that actor's key.
 func (s *scen) readRedeem(ref string, bi int, client string, counter int64, signer string, fee currency.Coin) chainsim.Action {
 	b := s.B[bi]
 	name := fmt.Sprintf("read_redeem(%s,%s,%s,ctr=%d", ref, b.Name, client, counter)
@@ -513,7 +529,10 @@ func (s *scen) readRedeem(ref string, bi int, client string, counter int64, sign
 		rm := &storagesc.ReadMarker{ClientID: c.ID, ClientPublicKey: c.PublicKey, BlobberID: b.ID, AllocationID: id, OwnerID: owner,
 			Timestamp: x.Now, ReadCounter: counter}
 		sg := c
-		if signer != "" {
+		if len(signer) > 4 && signer[:4] == "key:" {
+			sg = s.actor(signer[4:])
+			rm.ClientPublicKey = sg.PublicKey
+		} else if signer != "" {
 			sg = s.actor(signer)
 		}
 		sig, err := sg.Scheme.Sign(encryption.Hash(rm.GetHashData()))
